@@ -14,6 +14,7 @@ import OsacaVerif.Props.C05
   locality of the graph (`C05.dg_local`), the characterisation of the reported entries as the
   winding-1 dependency cycles of the stream `k^ω` (`C05.lcd_sound`, `C05.lcd_complete`), and the fact
   that rotating the body shifts the stream relation (`streamDep_rotate`), which is periodic.
+  `lcd_rotation_count`: the two reported lists have the same length (the correspondence is a bijection).
 -/
 namespace OsacaVerif.Props.C14
 open OsacaVerif OsacaVerif.DG OsacaVerif.LCD
@@ -312,6 +313,158 @@ example :
     let k := [mk 1 [r "xmm1"] [r "xmm0"] 4, mk 2 [r "rax"] [r "rbx"] 1]
     ((lcd .x86 false {} 1000 (rotate 1 k)).map (·.latency)) = [1, 4] ∧
     ((lcd .x86 false {} 1000 k).map (·.latency)) = [4, 1] := by
+  decide +kernel
+
+/-! ### the counting step: the same *number* of entries -/
+
+/-- counting by an injective total relation: if every element of a duplicate-free list `l1` is related
+    to some element of `l2`, and no element of `l2` is related to two different elements of `l1`,
+    then `l1` is not longer than `l2` -/
+theorem length_le_of_inj_rel {α β : Type} (R : α → β → Prop) (l1 : List α) (l2 : List β) (h1 : l1.Nodup)
+    (htot : ∀ a ∈ l1, ∃ b ∈ l2, R a b)
+    (hinj : ∀ a1 ∈ l1, ∀ a2 ∈ l1, ∀ b, R a1 b → R a2 b → a1 = a2) : l1.length ≤ l2.length := by
+  induction l1 generalizing l2 with
+  | nil => simp
+  | cons a l1 ih =>
+    obtain ⟨b, hb, hab⟩ := htot a List.mem_cons_self
+    obtain ⟨s, t, rfl⟩ := List.append_of_mem hb
+    have hnd := List.nodup_cons.mp h1
+    have := ih (s ++ t) hnd.2
+      (by
+        intro a' ha'
+        obtain ⟨b', hb', hab'⟩ := htot a' (List.mem_cons_of_mem _ ha')
+        rcases Classical.em (b' = b) with heq | hne
+        · subst heq
+          have := hinj a' (List.mem_cons_of_mem _ ha') a List.mem_cons_self b' hab' hab
+          subst this
+          exact absurd ha' hnd.1
+        · refine ⟨b', ?_, hab'⟩
+          rcases List.mem_append.mp hb' with h | h
+          · exact List.mem_append_left _ h
+          · rcases List.mem_cons.mp h with h | h
+            · exact absurd h hne
+            · exact List.mem_append_right _ h)
+      (fun a1 ha1 a2 ha2 b' => hinj a1 (List.mem_cons_of_mem _ ha1) a2 (List.mem_cons_of_mem _ ha2) b')
+    simp only [List.length_cons, List.length_append] at this ⊢
+    omega
+
+theorem eq_of_pairwise_ne {α β : Type} (f : α → β) (l : List α) (h : l.Pairwise (fun a b => f a ≠ f b))
+    (a b : α) (ha : a ∈ l) (hb : b ∈ l) (hf : f a = f b) : a = b := by
+  induction l with
+  | nil => cases ha
+  | cons x l ih =>
+    obtain ⟨hx, hl⟩ := List.pairwise_cons.mp h
+    rcases List.mem_cons.mp ha with ha' | ha'
+    · rcases List.mem_cons.mp hb with hb' | hb'
+      · rw [ha', hb']
+      · rw [ha'] at hf; exact absurd hf (hx b hb')
+    · rcases List.mem_cons.mp hb with hb' | hb'
+      · rw [hb'] at hf; exact absurd hf.symm (hx a ha')
+      · exact ih hl ha' hb'
+
+/-- **an entry's members *are* its normal-form cycle**: for a reported entry, `idxMembers` (positions
+    of the member lines in the body, with the edge latencies) is literally a winding-1 stream cycle
+    with ascending positions inside the body -/
+theorem idxMembers_normal (isa : Isa) (fd : Bool) (par : Params) (floor : Nat) (k : List Ins) (hwf : WFKernel k)
+    (e : Entry) (he : e ∈ lcd isa fd par floor k) :
+    IsStreamCycle (streamDep isa fd par k) k.length (idxMembers k e) ∧
+    (∀ y ∈ idxMembers k e, y.1 < k.length) ∧ (verts (idxMembers k e)).Pairwise (· < ·) ∧
+    e.lines = (idxMembers k e).map (fun y => lineAt k y.1) := by
+  obtain ⟨b, hc, hlt, hinc, hl, ht, _⟩ := C05.lcd_sound_normal isa fd par floor k hwf e he
+  have hidx : idxMembers k e = b := by
+    unfold idxMembers
+    rw [hl, ht]
+    have : (b.map (fun y => lineAt k y.1)).zip (b.map (·.2)) = b.map (fun y => (lineAt k y.1, y.2)) := by
+      have := zip_fst_snd (b.map (fun y => (lineAt k y.1, y.2)))
+      simpa [List.map_map, Function.comp_def] using this
+    rw [this, List.map_map]
+    conv => rhs; rw [← List.map_id b]
+    apply List.map_congr_left
+    intro y hy
+    simp only [Function.comp_apply, id]
+    rw [posOf_lineAt k hwf y.1 (hlt y hy)]
+  rw [hidx]
+  exact ⟨hc, hlt, hinc, hl⟩
+
+/-- two reported entries with the same members (as multisets of (position, latency)) are the same entry -/
+theorem entry_eq_of_members_perm (isa : Isa) (fd : Bool) (par : Params) (floor : Nat) (k : List Ins)
+    (hwf : WFKernel k) (e1 e2 : Entry) (h1 : e1 ∈ lcd isa fd par floor k) (h2 : e2 ∈ lcd isa fd par floor k)
+    (hp : (idxMembers k e1).Perm (idxMembers k e2)) : e1 = e2 := by
+  obtain ⟨_, _, hi1, hl1⟩ := idxMembers_normal isa fd par floor k hwf e1 h1
+  obtain ⟨_, _, hi2, hl2⟩ := idxMembers_normal isa fd par floor k hwf e2 h2
+  have hs : ∀ b : List (Nat × Rat), (verts b).Pairwise (· < ·) → b.Pairwise le2 := by
+    intro b hb
+    have : b.Pairwise (fun x y => x.1 < y.1) := by simpa [verts, List.pairwise_map] using hb
+    exact this.imp (fun h => Or.inl h)
+  have heq : idxMembers k e1 = idxMembers k e2 :=
+    List.Perm.eq_of_pairwise (le := le2) (fun _ _ _ _ a b => le2_antisymm a b) (hs _ hi1) (hs _ hi2) hp
+  have hlines : e1.lines = e2.lines := by rw [hl1, hl2, heq]
+  exact eq_of_pairwise_ne (·.lines) _ (C05.lcd_reported_once isa fd par floor k hwf) e1 e2 h1 h2 hlines
+
+theorem lcd_nodup (isa : Isa) (fd : Bool) (par : Params) (floor : Nat) (k : List Ins) (hwf : WFKernel k) :
+    (lcd isa fd par floor k).Nodup :=
+  (C05.lcd_reported_once isa fd par floor k hwf).imp (fun h heq => h (by rw [heq]))
+
+/-- **lcd_rotation_count** (∀ kernels with strictly increasing lines, ∀ rotation offsets `r ≤ |k|`):
+    the rotated body has exactly as many reported loop-carried dependencies as the body.  With
+    `lcd_rotation_invariant` (every entry has a counterpart with the same members and latency, both
+    ways) and `lcd_reported_once` (no entry twice): the member-set correspondence is a bijection
+    between the two reported lists — nothing is merged, split, lost or invented by a rotation. -/
+theorem lcd_rotation_count (isa : Isa) (fd : Bool) (par : Params) (floor : Nat) (k : List Ins) (r : Nat)
+    (hwf : WFKernel k) (hr : r ≤ k.length) :
+    (lcd isa fd par floor (rotate r k)).length = (lcd isa fd par floor k).length := by
+  obtain ⟨h1, h2⟩ := lcd_rotation_invariant isa fd par floor k r hwf hr
+  have hwf' := rotate_wf r k
+  have hlen := rotate_length r k
+  apply Nat.le_antisymm
+  · -- every rotated entry has a counterpart; two rotated entries with the same counterpart coincide
+    refine length_le_of_inj_rel
+      (fun e' e => ((idxMembers (rotate r k) e').map (fun x => ((x.1 + r) % k.length, x.2))).Perm (idxMembers k e))
+      _ _ (lcd_nodup isa fd par floor _ hwf') ?_ ?_
+    · intro e' he'
+      obtain ⟨e, he, hp, _⟩ := h2 e' he'
+      exact ⟨e, he, hp⟩
+    · intro e1 he1 e2 he2 e hp1 hp2
+      apply entry_eq_of_members_perm isa fd par floor _ hwf' e1 e2 he1 he2
+      have hp := (hp1.trans hp2.symm).map (fun x : Nat × Rat => ((x.1 + (k.length - r)) % k.length, x.2))
+      have hun : ∀ e' ∈ lcd isa fd par floor (rotate r k),
+          ((idxMembers (rotate r k) e').map (fun x => ((x.1 + r) % k.length, x.2))).map
+            (fun x : Nat × Rat => ((x.1 + (k.length - r)) % k.length, x.2)) = idxMembers (rotate r k) e' := by
+        intro e' he'
+        obtain ⟨_, hlt, _, _⟩ := idxMembers_normal isa fd par floor _ hwf' e' he'
+        rw [List.map_map]
+        conv => rhs; rw [← List.map_id (idxMembers (rotate r k) e')]
+        apply List.map_congr_left
+        intro x hx
+        have hx' := hlt x hx
+        rw [hlen] at hx'
+        simp only [Function.comp_apply, id]
+        refine Prod.ext ?_ rfl
+        simp only
+        rw [Nat.mod_add_mod]
+        have e1 : x.1 + r + (k.length - r) = x.1 + k.length := by omega
+        rw [e1, Nat.add_mod_right, Nat.mod_eq_of_lt hx']
+      rw [hun e1 he1, hun e2 he2] at hp
+      exact hp
+  · refine length_le_of_inj_rel
+      (fun e e' => ((idxMembers (rotate r k) e').map (fun x => ((x.1 + r) % k.length, x.2))).Perm (idxMembers k e))
+      _ _ (lcd_nodup isa fd par floor k hwf) ?_ ?_
+    · intro e he
+      obtain ⟨e', he', hp, _⟩ := h1 e he
+      exact ⟨e', he', hp⟩
+    · intro e1 he1 e2 he2 e' hp1 hp2
+      exact entry_eq_of_members_perm isa fd par floor k hwf e1 e2 he1 he2 (hp1.symm.trans hp2)
+
+-- non-vacuity: the two-instruction accumulation loop has two cycles before and after rotation,
+-- the three-instruction ring one
+example :
+    let r (n : String) : Op := .reg { name := Text.ofString n }
+    let mk (line : Nat) (src sd : List Op) (lat : Rat) : Ins :=
+      { line := line, src := src, dst := [], srcDst := sd, lat := lat, latWoLoad := none, hasLd := false,
+        isLd := false, changes := [], changesPost := [] }
+    let k := [mk 1 [r "xmm1"] [r "xmm0"] 4, mk 2 [r "rax"] [r "rbx"] 1]
+    WFKernel k ∧ (lcd .x86 false {} 1000 (rotate 1 k)).length = 2 ∧ (lcd .x86 false {} 1000 k).length = 2 ∧
+    (lcd .x86 false {} 1000 k).map (idxMembers k) = [[(0, 4)], [(1, 1)]] := by
   decide +kernel
 
 end OsacaVerif.Props.C14
